@@ -112,7 +112,7 @@ var c01HugeOffsets = []uint64{1<<31 - 1, 1 << 31, 1<<32 - 1, 1 << 32, 1<<32 + 1,
 func genC01(t *rapid.T) c01Case {
 	c := c01Case{
 		Transfer: pick(t, "transfer", 7, 512, 65536),
-		Cache:    cacheCfg{AttrTTLns: pick(t, "ttl", int64(1), int64(3600e9)), AttrSize: pick(t, "asize", 1, 10000), Conn: rapid.IntRange(0, 3).Draw(t, "conn") == 0, Verbose: rapid.IntRange(0, 5).Draw(t, "verbose") == 0},
+		Cache:    cacheCfg{AttrTTLns: pick(t, "ttl", int64(1), int64(3600e9)), AttrSize: pick(t, "asize", 1, 10000), Conn: rapid.IntRange(0, 3).Draw(t, "conn") == 0, Verbose: rapid.IntRange(0, 5).Draw(t, "verbose") == 0, Limits: rapid.IntRange(0, 5).Draw(t, "limits") == 0},
 	}
 	maxOps := 25
 	if thorough() {
